@@ -84,6 +84,9 @@ class Finder:
         # and so does a search whose symbols, eg. "/**", were overwritten by its own query)
         is_search = sid.is_search() or any(s in str(search_sid) for s in conf.search_symbols)
         is_search = is_search or "?" in sid.string  # an un-applied query: unfolding drops the search
+        # (the alias may also be the last segment of the search STRING, with a deeper level given by the query: "x/maya?task=model")
+        last_segment = str(search_sid).split("?", 1)[0].split(conf.sip)[-1]
+        is_search = is_search or last_segment in conf.extension_alias
         if sid and not is_search and sid.get(sid.keytype) not in conf.extension_alias:
             generator = self.do_find([sid], as_sid=as_sid)
         else:
